@@ -195,6 +195,6 @@ def generic_cases():
 
 def subchecks(tier):
     q = tier == "quick"
-    return [Sub("eulerian", case_strategy(), test_case, 40 if q else 400,
+    return [Sub("eulerian", case_strategy(), test_case, 40 if q else 2500,
                 generic=generic_cases(), shards=8 if q else 16, max_rounds=2,
                 shrink_quick=False, pregenerate=True)]
